@@ -46,3 +46,17 @@ def trusted_base(prop):
 
 def assumptions(prop):
     return trusted_base(prop)
+
+
+# Module-level caches of the code under contract that a function may write (every other write of module- or
+# class-level state fails the frame obligation `frame.module-state`).  Each entry states the cache invariant as
+# a check on the written (key, value); it is evaluated at every write the engine sees.
+def _loaded_const_ok(key, value):
+    """mysensors.const.LOADED_CONST[path] is the module named path: a lookup can only return what
+    import_module(path) returns, so get_const does not depend on earlier calls"""
+    import types
+
+    return isinstance(key, str) and isinstance(value, types.ModuleType) and value.__name__ == key
+
+
+MODULE_CACHES = {"mysensors.const:LOADED_CONST": _loaded_const_ok}
